@@ -105,3 +105,58 @@ Proof. vm_compute. repeat split; reflexivity. Qed.
 (* the partial statement is not vacuous: its premise holds of ex_loop, hence all consequences *)
 Example ex_loop_consequences : C07_consequences ex_loop.
 Proof. apply C07_statement_partial_lemma. exact ex_loop_wf. Qed.
+
+(* ---- register-form string keys (StrKey.v; Properties/C07.v 6b, 6c) ------------------------------
+   The layout compile.go produces for `g:m()` with a global (= temporary) receiver when the method
+   name is not RK-encodable: GETGLOBAL R0 ; LOADK R1 "m" ; SELF R0 R0 R1 ; CALL ; RETURN. The key
+   register R1 is R(A+1) of the SELF, the register the instruction overwrites with the receiver. *)
+From GL Require Import VM.StrKey VM.StrKeyFacts.
+
+Definition ex_self : proto :=
+  Proto [opCreateABx 6 0 0; opCreateABx 2 1 1; opCreateABC 14 0 0 1; opCreateABC 31 0 2 1; w_return]
+        [1; 1] 2 [] 0 0 0 2 5.
+
+Example ex_self_ok : wf_proto ex_self = true /\ strreg_proto ex_self = true /\ wfx_proto ex_self = true.
+Proof. vm_compute. repeat split; reflexivity. Qed.
+
+(* the hypotheses of regkey_fed / regkey_run are satisfiable: the SELF at pc 2 is in register form
+   with key register 1 = A + 1, and pc 2 is reached from the entry *)
+Example ex_self_regkey :
+  zth (f_code (view ex_self)) 2 = Some (opCreateABC 14 0 0 1) /\
+  regkey_of (opCreateABC 14 0 0 1) = Some 1 /\ opGetArgA (opCreateABC 14 0 0 1) + 1 = 1 /\
+  pc_ok (view ex_self) 2.
+Proof. vm_compute. repeat split; reflexivity. Qed.
+
+Example ex_self_reach : reach (view ex_self) 0 2.
+Proof.
+  eapply (reach_step _ 0 _ 1); [vm_compute; reflexivity | left; reflexivity |].
+  eapply (reach_step _ 1 _ 2); [vm_compute; reflexivity | left; reflexivity |].
+  apply reach_refl.
+Qed.
+
+(* the conclusion of regkey_run for it: fed by the LOADK at pc 1, which is the only way in *)
+Example ex_self_fed :
+  1 <= 2 /\ fed_by_loadk (view ex_self) 2 1 /\
+  (forall q i, reach (view ex_self) 0 q -> sk_step (view ex_self) q = Some i -> In 2 (i_succ i) -> q = 2 - 1).
+Proof.
+  apply (regkey_run_lemma (view ex_self) 2 (opCreateABC 14 0 0 1) 1);
+    [vm_compute; reflexivity | vm_compute; reflexivity | exact ex_self_reach
+    | vm_compute; reflexivity | vm_compute; reflexivity].
+Qed.
+
+(* strreg_fn rejects: the key register loaded by a MOVE; by a LOADK of a number constant; by a LOADK
+   into another register; a jump that lands on the SELF (its LOADK can be bypassed); a test whose
+   skip lands on a GETTABLEKS in register form. Each of them is still accepted by wf_proto: the
+   clause is new. *)
+Example bad_regkey :
+  let mk code kinds n := Proto code kinds (len kinds) [] 0 0 0 3 n in
+  strreg_proto (mk [opCreateABx 6 0 0; opCreateABC 0 1 2 0; opCreateABC 14 0 0 1; opCreateABC 31 0 2 1; w_return] [1; 1] 5) = false /\
+  strreg_proto (mk [opCreateABx 6 0 0; opCreateABx 2 1 1; opCreateABC 14 0 0 1; opCreateABC 31 0 2 1; w_return] [1; 0] 5) = false /\
+  strreg_proto (mk [opCreateABx 6 0 0; opCreateABx 2 2 1; opCreateABC 14 0 0 1; opCreateABC 31 0 2 1; w_return] [1; 1] 5) = false /\
+  strreg_proto (mk [w_jmp 2; opCreateABx 6 0 0; opCreateABx 2 1 1; opCreateABC 14 0 0 1; opCreateABC 31 0 2 1; w_return] [1; 1] 6) = false /\
+  strreg_proto (mk [opCreateABC 29 0 0 0; opCreateABx 2 1 1; opCreateABC 8 0 0 1; w_return] [1; 1] 4) = false /\
+  wf_proto (mk [opCreateABx 6 0 0; opCreateABC 0 1 2 0; opCreateABC 14 0 0 1; opCreateABC 31 0 2 1; w_return] [1; 1] 5) = true /\
+  wf_proto (mk [w_jmp 2; opCreateABx 6 0 0; opCreateABx 2 1 1; opCreateABC 14 0 0 1; opCreateABC 31 0 2 1; w_return] [1; 1] 6) = true /\
+  (* the constant (RK) form needs no LOADK *)
+  strreg_proto (mk [opCreateABx 6 0 0; opCreateABC 14 0 0 257; opCreateABC 31 0 2 1; w_return] [1; 1] 4) = true.
+Proof. vm_compute. repeat split; reflexivity. Qed.
